@@ -90,7 +90,9 @@ def circle(radius, size, circle_centre=(0, 0), origin="middle"):
     #     output = 1
     # else:
     #     output = 0
-    mask = x * x + y * y <= radius * radius
+    # (square the radius in double precision: a radius given as a narrow NumPy
+    # integer, e.g. numpy.uint8(20), would wrap around in its own type)
+    mask = x * x + y * y <= numpy.multiply(radius, radius, dtype=float)
     C[mask] = 1
 
     # (5) Return:
